@@ -147,3 +147,37 @@ func Verif_C09_tcp_failure_is_silent() {
 	}
 	verifCover("tcp-failure")
 }
+
+// The outbound FSM object is reused across connections: a second session on the same FSM,
+// ended by something other than a reader error, must still deliver OnClose exactly once.
+func Verif_C09_second_session_on_reused_fsm() {
+	verifNote("real peer: first outbound session Established then ended by FIN; the same outbound FSM re-dials (idle-hold timer fired), second session Established, ended by a received NOTIFICATION (symbolic code), an unexpected OPEN (FSM error) or hold-timer expiry: OnClose fires once per session and nothing wedges")
+	e := newPenv(false)
+	e.dial.outcomes = []dialOutcome{dialOK, dialOK, dialPendingThenFail}
+	e.p.start()
+	c1 := e.bring(out, stEstablished)
+	c1.remoteClose(1)
+	verifQuiesce()
+	verifAssert("first-session-closed-once", e.pl.nEstab == 1 && e.pl.nClose == 1 && c1.closed)
+	f := e.p.fsms[out]
+	if f == nil || !verifFireTimer(f.idleHoldTimer) {
+		verifAssert("outbound-fsm-waits-for-idle-hold", false)
+		return
+	}
+	c2 := e.bring(out, stEstablished)
+	verifAssert("second-session-on-same-fsm", c2 != c1 && e.p.fsms[out] == f && e.pl.nEstab == 2)
+	switch verifChoose("end", 3) {
+	case 0:
+		c2.send(notificationMessageType, []byte{verifU8("ncode"), 0})
+	case 1:
+		c2.send(openMessageType, e.openBody())
+	case 2:
+		verifFireTimer(f.holdTimer)
+	}
+	verifQuiesce()
+	verifAssert("second-session-onclose-exactly-once", e.pl.nClose == 2 && !e.pl.badOrder)
+	verifAssert("second-connection-closed", c2.closed)
+	verifCover("second-session")
+	e.p.stop()
+	verifAssert("stop-returns", e.pl.nClose == 2)
+}
